@@ -1,4 +1,8 @@
+#[cfg(feature = "std")]
+mod blockval;
 mod hooks;
+mod optval;
+mod registry;
 mod util;
 mod wire;
 
@@ -15,6 +19,11 @@ fn main() {
     match (argv[1].as_str(), argv[2].as_str()) {
         ("replay", "wire") => wire::replay_wire(&args),
         ("replay", "build") => wire::replay_build(&args),
+        ("replay", "registry") => registry::replay_registry(&args),
+        #[cfg(feature = "std")]
+        ("replay", "blockvalue") => blockval::replay_blockvalue(&args),
+        ("replay", "optval") => optval::replay_optval(&args),
+        ("rec", "optval") => optval::rec_optval(&args),
         ("rec", "wire-bytes") => wire::rec_wire_bytes(&args),
         ("rec", "wire-build") => wire::rec_wire_build(&args),
         ("rec", "wire-limit") => wire::rec_wire_limit(&args),
